@@ -9,24 +9,27 @@ import Mathlib.Data.List.Nodup
 import Mathlib.Data.List.Induction
 import Mathlib.Data.List.Perm.Basic
 import Mathlib.Algebra.BigOperators.Group.List.Basic
-import Mathlib.Tactic.Ring
+import Mathlib.Tactic.Abel
 import Mathlib.Tactic.Linarith
 
 namespace Molgri.Merge
 
+-- the scalars: any additive commutative group (the code only uses `+`, `-`, `0`)
+variable {α : Type} [AddCommGroup α]
+
 /-! ### sums -/
 
-theorem foldl_add (l : List Int) (a : Int) : l.foldl (· + ·) a = a + l.sum := by
+theorem foldl_add (l : List α) (a : α) : l.foldl (· + ·) a = a + l.sum := by
   induction l generalizing a with
   | nil => simp
-  | cons x xs ih => simp [List.foldl_cons, ih, Int.add_assoc]
+  | cons x xs ih => simp [List.foldl_cons, ih, add_assoc]
 
-theorem intSum_eq_sum (l : List Int) : intSum l = l.sum := by
+theorem intSum_eq_sum (l : List α) : intSum l = l.sum := by
   unfold intSum; rw [foldl_add]; simp
 
 /-! ### dimensions -/
 
-@[simp] theorem length_mergeMat (A : Mat) (G : Groups) :
+@[simp] theorem length_mergeMat (A : Mat α) (G : Groups) :
     (mergeMat A G).length = (toKeep A.length (flatMerged G)).length := by
   simp [mergeMat]
 
@@ -37,7 +40,7 @@ theorem intSum_eq_sum (l : List Int) : intSum l = l.sum := by
 @[simp] theorem length_singletons (n : Nat) : (singletons n).length = n := by
   simp [singletons]
 
-theorem mergeCells_dim {A : Mat} {J : Groups} {idx : Option Groups} {A' : Mat} {il' : Groups}
+theorem mergeCells_dim {A : Mat α} {J : Groups} {idx : Option Groups} {A' : Mat α} {il' : Groups}
     (h : mergeCells A J idx = .ok (A', il')) : il'.length = A'.length := by
   unfold mergeCells at h
   cases idx with
@@ -58,7 +61,7 @@ theorem mergeCells_dim {A : Mat} {J : Groups} {idx : Option Groups} {A' : Mat} {
       have : il.length = A.length := by simpa using hl
       rw [this]
 
-theorem deleteCells_dim (A : Mat) (R : List Nat) (idx : Option Groups) :
+theorem deleteCells_dim (A : Mat α) (R : List Nat) (idx : Option Groups) :
     (deleteCells A R idx).2.length = (deleteCells A R idx).1.length := by
   simp [deleteCells, normalize, subMat]
 
@@ -147,10 +150,10 @@ theorem strict_uniqueAsc (l : List Nat) : (uniqueAsc l).Pairwise (· < ·) :=
 /-! ### entries of the merged matrix and block sums -/
 
 /-- sum of the original entries over a pair of groups of cells -/
-def blockSum (M : Nat → Nat → Int) (g h : List Nat) : Int :=
+def blockSum (M : Nat → Nat → α) (g h : List Nat) : α :=
   (g.map fun c => (h.map fun d => M c d).sum).sum
 
-theorem blockSum_perm {M : Nat → Nat → Int} {g g' h h' : List Nat} (hg : g.Perm g') (hh : h.Perm h') :
+theorem blockSum_perm {M : Nat → Nat → α} {g g' h h' : List Nat} (hg : g.Perm g') (hh : h.Perm h') :
     blockSum M g h = blockSum M g' h' := by
   unfold blockSum
   have : ∀ c, (h.map fun d => M c d).sum = (h'.map fun d => M c d).sum :=
@@ -158,14 +161,14 @@ theorem blockSum_perm {M : Nat → Nat → Int} {g g' h h' : List Nat} (hg : g.P
   simp only [this]
   exact (hg.map _).sum_eq
 
-theorem blockSum_flatMap_left (M : Nat → Nat → Int) (f : Nat → List Nat) (rs h : List Nat) :
+theorem blockSum_flatMap_left (M : Nat → Nat → α) (f : Nat → List Nat) (rs h : List Nat) :
     blockSum M (rs.flatMap f) h = (rs.map fun r => blockSum M (f r) h).sum := by
   unfold blockSum
   induction rs with
   | nil => simp
   | cons r rs ih => simp [List.flatMap_cons, List.map_append, List.sum_append, ih]
 
-theorem blockSum_flatMap_right (M : Nat → Nat → Int) (f : Nat → List Nat) (g ss : List Nat) :
+theorem blockSum_flatMap_right (M : Nat → Nat → α) (f : Nat → List Nat) (g ss : List Nat) :
     blockSum M g (ss.flatMap f) = (ss.map fun s => blockSum M g (f s)).sum := by
   unfold blockSum
   induction ss with
@@ -176,14 +179,14 @@ theorem blockSum_flatMap_right (M : Nat → Nat → Int) (f : Nat → List Nat) 
     clear ih
     induction g with
     | nil => simp
-    | cons c cs ihc => simp only [List.map_cons, List.sum_cons, ihc]; ring
+    | cons c cs ihc => simp only [List.map_cons, List.sum_cons, ihc]; abel
 
-theorem entry_map_map (keep : List Nat) (f : Nat → Nat → Int) {i j : Nat} (hi : i < keep.length) (hj : j < keep.length) :
+theorem entry_map_map (keep : List Nat) (f : Nat → Nat → α) {i j : Nat} (hi : i < keep.length) (hj : j < keep.length) :
     entry (keep.map fun a => keep.map fun b => f a b) i j = f keep[i] keep[j] := by
   unfold entry
   simp [List.getD_eq_getElem?_getD, hi, hj]
 
-theorem entry_mergeMat (A : Mat) (G : Groups) {i j : Nat}
+theorem entry_mergeMat (A : Mat α) (G : Groups) {i j : Nat}
     (hi : i < (toKeep A.length (flatMerged G)).length) (hj : j < (toKeep A.length (flatMerged G)).length) :
     entry (mergeMat A G) i j =
       ((grpOf G (toKeep A.length (flatMerged G))[i]).map fun r =>
@@ -200,7 +203,7 @@ theorem getD_mergeIdx (il : Groups) (G : Groups) {i : Nat} (hi : i < (toKeep il.
 
 /-- **Exact lumping by a merge**: if every entry of `A` is the block sum of the original matrix over the
 groups of the index list, the same holds after the merge, for any row groups `G`. -/
-theorem mergeMat_blockSum (M : Nat → Nat → Int) (A : Mat) (il : Groups) (G : Groups) (hl : il.length = A.length)
+theorem mergeMat_blockSum (M : Nat → Nat → α) (A : Mat α) (il : Groups) (G : Groups) (hl : il.length = A.length)
     (hA : ∀ r s, entry A r s = blockSum M (il.getD r []) (il.getD s []))
     {i j : Nat} (hi : i < (mergeMat A G).length) (hj : j < (mergeMat A G).length) :
     entry (mergeMat A G) i j = blockSum M ((mergeIdx il G).getD i []) ((mergeIdx il G).getD j []) := by
@@ -379,20 +382,20 @@ theorem lt_of_mem_grpOf {G : Groups} (hG : Comps G) {a x : Nat} (hx : x ∈ grpO
 
 /-! ### off-diagonal lumping (valid also after deletions, which reset the diagonal) -/
 
-@[simp] theorem blockSum_nil_left (M : Nat → Nat → Int) (h : List Nat) : blockSum M [] h = 0 := by
+@[simp] theorem blockSum_nil_left (M : Nat → Nat → α) (h : List Nat) : blockSum M [] h = 0 := by
   simp [blockSum]
 
-@[simp] theorem blockSum_nil_right (M : Nat → Nat → Int) (g : List Nat) : blockSum M g [] = 0 := by
+@[simp] theorem blockSum_nil_right (M : Nat → Nat → α) (g : List Nat) : blockSum M g [] = 0 := by
   unfold blockSum
   induction g with
   | nil => simp
   | cons c cs ih => simp
 
-theorem entry_of_row_ge {A : Mat} {i j : Nat} (h : A.length ≤ i) : entry A i j = 0 := by
+theorem entry_of_row_ge {A : Mat α} {i j : Nat} (h : A.length ≤ i) : entry A i j = 0 := by
   unfold entry
   rw [List.getD_eq_default _ _ h]; simp
 
-theorem entry_of_col_ge {A : Mat} {i j : Nat} (h : ∀ row ∈ A, row.length ≤ j) : entry A i j = 0 := by
+theorem entry_of_col_ge {A : Mat α} {i j : Nat} (h : ∀ row ∈ A, row.length ≤ j) : entry A i j = 0 := by
   unfold entry
   by_cases hi : i < A.length
   · have : A.getD i [] = A[i] := by simp [List.getD_eq_getElem?_getD, hi]
@@ -404,7 +407,7 @@ theorem getElem_toKeep_ne {n : Nat} {gone : List Nat} {i j : Nat} (hi : i < (toK
   intro h
   exact hij ((List.Nodup.getElem_inj_iff (nodup_toKeep n gone)).mp h)
 
-theorem mergeMat_blockSum_off (M : Nat → Nat → Int) (A : Mat) (il : Groups) (G : Groups)
+theorem mergeMat_blockSum_off (M : Nat → Nat → α) (A : Mat α) (il : Groups) (G : Groups)
     (hl : il.length = A.length) (hG : Comps G)
     (hA : ∀ r s, r ≠ s → entry A r s = blockSum M (il.getD r []) (il.getD s []))
     {i j : Nat} (hij : i ≠ j) :
@@ -475,30 +478,30 @@ theorem mergeIdx_disj (il : Groups) (G : Groups) (hG : Comps G) (hil : il.Pairwi
 /-! ### deletion and re-normalisation -/
 
 /-- every row has as many entries as there are rows -/
-def Square (A : Mat) : Prop := ∀ row ∈ A, row.length = A.length
+def Square {α : Type} (A : Mat α) : Prop := ∀ row ∈ A, row.length = A.length
 
-theorem square_mergeMat (A : Mat) (G : Groups) : Square (mergeMat A G) := by
+theorem square_mergeMat (A : Mat α) (G : Groups) : Square (mergeMat A G) := by
   intro row hrow
   unfold mergeMat at hrow ⊢
   simp only [List.mem_map] at hrow
   obtain ⟨a, _, rfl⟩ := hrow
   simp
 
-theorem square_subMat (A : Mat) (keep : List Nat) : Square (subMat A keep) := by
+theorem square_subMat (A : Mat α) (keep : List Nat) : Square (subMat A keep) := by
   intro row hrow
   unfold subMat at hrow ⊢
   simp only [List.mem_map] at hrow
   obtain ⟨a, _, rfl⟩ := hrow
   simp
 
-theorem getD_range_map (row : List Int) : (List.range row.length).map (fun j => row.getD j 0) = row := by
+theorem getD_range_map (row : List α) : (List.range row.length).map (fun j => row.getD j 0) = row := by
   apply List.ext_getElem
   · simp
   · intro i h1 h2
     simp [List.getD_eq_getElem?_getD] at h1 ⊢
     simp [h2]
 
-theorem sum_range_update (f : Nat → Int) (S : Int) (i m : Nat) (hi : i < m) :
+theorem sum_range_update (f : Nat → α) (S : α) (i m : Nat) (hi : i < m) :
     ((List.range m).map (fun j => if i = j then f j - S else f j)).sum = ((List.range m).map f).sum - S := by
   induction m with
   | zero => omega
@@ -511,13 +514,13 @@ theorem sum_range_update (f : Nat → Int) (S : Int) (i m : Nat) (hi : i < m) :
         intro j hj
         have : i ≠ j := by rw [List.mem_range] at hj; omega
         simp [this]
-      rw [this]; simp; ring
+      rw [this]; simp; abel
     · have hi' : i < m := by omega
-      rw [ih hi']; simp [h]; ring
+      rw [ih hi']; simp [h]; abel
 
-theorem length_normalize (A : Mat) : (normalize A).length = A.length := by simp [normalize]
+theorem length_normalize (A : Mat α) : (normalize A).length = A.length := by simp [normalize]
 
-theorem getD_normalize (A : Mat) {i : Nat} (hi : i < A.length) :
+theorem getD_normalize (A : Mat α) {i : Nat} (hi : i < A.length) :
     (normalize A).getD i [] =
       (List.range (A.getD i []).length).map fun j =>
         if i = j then (A.getD i []).getD j 0 - intSum (A.getD i []) else (A.getD i []).getD j 0 := by
@@ -525,17 +528,17 @@ theorem getD_normalize (A : Mat) {i : Nat} (hi : i < A.length) :
   simp [List.getD_eq_getElem?_getD, hi]
 
 /-- `sqra_normalize` makes every row of a square matrix sum to zero -/
-theorem rowSum_normalize (A : Mat) (hsq : Square A) (i : Nat) : ((normalize A).getD i []).sum = 0 := by
+theorem rowSum_normalize (A : Mat α) (hsq : Square A) (i : Nat) : ((normalize A).getD i []).sum = 0 := by
   by_cases hi : i < A.length
   · rw [getD_normalize A hi]
     have hrow : A.getD i [] = A[i] := by simp [List.getD_eq_getElem?_getD, hi]
     have hlen : (A.getD i []).length = A.length := by rw [hrow]; exact hsq _ (List.getElem_mem hi)
     rw [sum_range_update (fun j => (A.getD i []).getD j 0) _ i _ (by rw [hlen]; exact hi)]
-    rw [getD_range_map, intSum_eq_sum]; ring
+    rw [getD_range_map, intSum_eq_sum]; abel
   · rw [List.getD_eq_default _ _ (by rw [length_normalize]; omega)]; simp
 
 /-- `sqra_normalize` only touches the diagonal -/
-theorem entry_normalize_off (A : Mat) {i j : Nat} (hij : i ≠ j) : entry (normalize A) i j = entry A i j := by
+theorem entry_normalize_off (A : Mat α) {i j : Nat} (hij : i ≠ j) : entry (normalize A) i j = entry A i j := by
   unfold entry
   by_cases hi : i < A.length
   · rw [getD_normalize A hi]
@@ -550,7 +553,7 @@ theorem entry_normalize_off (A : Mat) {i j : Nat} (hij : i ≠ j) : entry (norma
     have h2 : A.getD i [] = [] := List.getD_eq_default _ _ (by omega)
     rw [h1, h2]
 
-theorem entry_subMat (A : Mat) (keep : List Nat) {i j : Nat} (hi : i < keep.length) (hj : j < keep.length) :
+theorem entry_subMat (A : Mat α) (keep : List Nat) {i j : Nat} (hi : i < keep.length) (hj : j < keep.length) :
     entry (subMat A keep) i j = entry A keep[i] keep[j] := by
   unfold subMat
   exact entry_map_map keep (fun a b => entry A a b) hi hj
@@ -564,7 +567,7 @@ theorem getD_map_getD (il : Groups) (keep : List Nat) (i : Nat) :
     exact List.getD_eq_default _ _ (by simp; omega)
 
 /-- off-diagonal lumping survives a deletion (selection of rows/columns, then diagonal reset) -/
-theorem select_blockSum_off (M : Nat → Nat → Int) (A : Mat) (il : Groups) (keep : List Nat) (hk : keep.Nodup)
+theorem select_blockSum_off (M : Nat → Nat → α) (A : Mat α) (il : Groups) (keep : List Nat) (hk : keep.Nodup)
     (hA : ∀ r s, r ≠ s → entry A r s = blockSum M (il.getD r []) (il.getD s []))
     {i j : Nat} (hij : i ≠ j) :
     entry (normalize (subMat A keep)) i j =
@@ -658,7 +661,7 @@ theorem perm_flatMap_grpOf {G : Groups} (hG : Comps G) {n : Nat} (hn : ∀ g ∈
       exact grpOf_disj hG (Nat.ne_of_lt hab) (mem_toKeep.mp ha).2 (mem_toKeep.mp hb).2 x hx hx'
   · exact List.nodup_range
 
-theorem sum_swap (l g : List Nat) (F : Nat → Nat → Int) :
+theorem sum_swap (l g : List Nat) (F : Nat → Nat → α) :
     (l.map fun b => (g.map fun r => F r b).sum).sum = (g.map fun r => (l.map fun b => F r b).sum).sum := by
   induction l with
   | nil => simp
@@ -666,13 +669,13 @@ theorem sum_swap (l g : List Nat) (F : Nat → Nat → Int) :
     simp only [List.map_cons, List.sum_cons, ih]
     rw [← List.sum_map_add]
 
-theorem sum_flatMap (l : List Nat) (f : Nat → List Nat) (g : Nat → Int) :
+theorem sum_flatMap (l : List Nat) (f : Nat → List Nat) (g : Nat → α) :
     ((l.flatMap f).map g).sum = (l.map fun b => ((f b).map g).sum).sum := by
   induction l with
   | nil => simp
   | cons b l ih => simp [List.flatMap_cons, List.map_append, List.sum_append, ih]
 
-theorem sum_entries_row (A : Mat) (hsq : Square A) (r : Nat) :
+theorem sum_entries_row (A : Mat α) (hsq : Square A) (r : Nat) :
     ((List.range A.length).map fun s => entry A r s).sum = (A.getD r []).sum := by
   by_cases hr : r < A.length
   · have hrow : A.getD r [] = A[r] := List.getD_eq_getElem _ _ hr
@@ -684,7 +687,7 @@ theorem sum_entries_row (A : Mat) (hsq : Square A) (r : Nat) :
     rw [this]; simp
 
 /-- a merge keeps zero row sums -/
-theorem rowSum_mergeMat (A : Mat) (G : Groups) (hG : Comps G) (hn : ∀ g ∈ G, ∀ x ∈ g, x < A.length)
+theorem rowSum_mergeMat (A : Mat α) (G : Groups) (hG : Comps G) (hn : ∀ g ∈ G, ∀ x ∈ g, x < A.length)
     (hsq : Square A) (hz : ∀ r, (A.getD r []).sum = 0) (i : Nat) : ((mergeMat A G).getD i []).sum = 0 := by
   by_cases hi : i < (toKeep A.length (flatMerged G)).length
   · unfold mergeMat
@@ -700,7 +703,7 @@ theorem rowSum_mergeMat (A : Mat) (G : Groups) (hG : Comps G) (hn : ∀ g ∈ G,
 
 /-! ### symmetry -/
 
-theorem entry_mergeMat_symm (A : Mat) (G : Groups) (hs : ∀ r s, entry A r s = entry A s r) (i j : Nat) :
+theorem entry_mergeMat_symm (A : Mat α) (G : Groups) (hs : ∀ r s, entry A r s = entry A s r) (i j : Nat) :
     entry (mergeMat A G) i j = entry (mergeMat A G) j i := by
   by_cases hi : i < (toKeep A.length (flatMerged G)).length
   · by_cases hj : j < (toKeep A.length (flatMerged G)).length
@@ -716,7 +719,7 @@ theorem entry_mergeMat_symm (A : Mat) (G : Groups) (hs : ∀ r s, entry A r s = 
     intro row hrow
     rw [square_mergeMat A G row hrow]; simp; omega
 
-theorem entry_select_symm (A : Mat) (keep : List Nat) (hs : ∀ r s, entry A r s = entry A s r) (i j : Nat) :
+theorem entry_select_symm (A : Mat α) (keep : List Nat) (hs : ∀ r s, entry A r s = entry A s r) (i j : Nat) :
     entry (normalize (subMat A keep)) i j = entry (normalize (subMat A keep)) j i := by
   by_cases hij : i = j
   · rw [hij]
@@ -749,7 +752,7 @@ theorem mem_rowsOf {il : Groups} {L : List Nat} {k : Nat} :
   · rintro ⟨hk, c, hc, hm⟩
     exact ⟨c, hc, mem_findIdx.mpr ⟨hk, hm⟩⟩
 
-/-- selection by index equals filtering the list -/
+/-- selection by index equals filteabel the list -/
 theorem filter_range_map {α : Type} (d : α) (l : List α) (q : Nat → Bool) (p : α → Bool)
     (h : ∀ k (hk : k < l.length), q k = p l[k]) :
     ((List.range l.length).filter q).map (fun k => l.getD k d) = l.filter p := by
